@@ -170,11 +170,14 @@ META = {
          "check_validity=True applies exactly that check in both classes. Bounded (labelled): order independence, model conformance.",
    note="Assumed: set / Counter / occurrence-table models, sortedcontainers. Domain notes (empty alignment, repeated foreign pair) in evidence.not_decided."),
  "C19": dict(
-   technique="contract-based deductive verification of corpus_from_reference (both argument forms) and false_neg_shuffle over the Continuum "
-             "contracts, every random draw unconstrained within its support; the other perturbations by a bounded stand-in",
+   technique="contract-based deductive verification of corpus_from_reference, the shift / false-negative / false-positive / split shuffles, "
+             "the constructor and corpus_shuffle (both argument forms, all 32 flag combinations) over the Continuum contracts, every random draw "
+             "unconstrained within its support; category_shuffle by an assumed set-level contract and a bounded stand-in",
    level="Proved for every draw: corpus_from_reference returns a fresh continuum whose annotators are exactly the requested names (or "
          "annotator_0..k-1), each carrying exactly the reference annotator's units, bounds copied, categories those of the tool; "
-         "false_neg_shuffle only removes units and leaves no annotator empty. Bounded (labelled): shift, false positives, category shuffle, "
-         "splits, flag combinations, include_ref, magnitude 0.",
+         "false_neg_shuffle only removes units and leaves no annotator empty; shift_shuffle moves every unit by at most shift_max (nothing at "
+         "magnitude 0), splits stay inside old units, false_pos_shuffle only adds units; corpus_shuffle yields exactly the requested annotators "
+         "(+ the reference iff asked), none empty, only valid units, for every flag combination. Bounded (labelled): category shuffle, the "
+         "counting clauses, magnitude 0 = exact copy.",
    note="Assumed: RNG support model, sortedcontainers; genericity hypothesis for the counting clauses."),
 }
